@@ -118,8 +118,16 @@ def run(ctx, replay):
             break
     else:
         raise vlib.ToolFailure("self-test: no line suitable for corruption")
+    head = []
+    for ln in src:
+        e = json.loads(ln)
+        if e.get("impl") == "adapter":
+            head.append({k: e[k] for k in ("op", "a", "k", "v", "r") if k in e})
+        if len(head) >= 12:
+            break
     ctx.cov.update(states=states, transitions=trans, traces_validated_against_impl=traces, evaluations=lines_total, calls_by_mode=calls,
-                   samples=[{"mode": m, "seed": seed, "index": 0, "replay": "vevm %s --seed %d --from 0 --n 1" % (m, seed)} for m, _, _ in plan],
+                   distinct_nontrivial=traces,
+                   samples=[{"mode": "ops", "seed": seed, "index": 0, "first_calls_and_answers_of_the_adapter": head}] + [{"mode": m, "seed": seed, "index": 0, "replay": "vevm %s --seed %d --from 0 --n 1" % (m, seed)} for m, _, _ in plan],
                    rule="seeded sequences of state-interface calls an interpreter can make (mutations of existing accounts, value to any address, creation of any address, nested snapshots and reverts in any order, finalisation between transactions, block commits) and seeded bytecode programs (SSTORE/SLOAD, BALANCE, EXTCODESIZE/HASH, LOG, CALL with value, CREATE with failing and succeeding init code, REVERT, SELFDESTRUCT, gas exhaustion) run by go-ethereum's interpreter; each is applied to go-ethereum's in-memory state and to the adapter over a chain state with transaction sessions and block commits; every call and answer of both is one trace line judged by TLC against StateDB.tla, execution results of the adapter are compared with the reference run",
                    **stats)
     ctx.assumptions += ["the recorder (harness/cmd/vevm) is the refinement mapping and is trusted; exercised by the corruption self-test",
